@@ -569,8 +569,8 @@ def run_c12(ctx, spec, out):
             h.both({"op": "advance", "seconds": rng.choice([5, 6, 9])})
             h.both({"op": "tick", "peer": pid}, "state")
             observe_queries(h, schema, wb, flags, ["comments", "downtimes"])
-            h.query("GET hosts\nColumns: name comments downtimes\nOutputFormat: wrapped_json\nSort: name asc\n\n", [wb], {"observe": "host lists"})
-            h.query("GET services\nColumns: host_name description comments downtimes\nOutputFormat: wrapped_json\nSort: host_name asc\nSort: description asc\n\n", [wb], {"observe": "service lists"})
+            h.query("GET hosts\nColumns: name comments downtimes comments_with_info downtimes_with_info\nOutputFormat: wrapped_json\nSort: name asc\n\n", [wb], {"observe": "host lists"})
+            h.query("GET services\nColumns: host_name description comments downtimes comments_with_info downtimes_with_info host_comments_with_info\nOutputFormat: wrapped_json\nSort: host_name asc\nSort: description asc\n\n", [wb], {"observe": "service lists"})
         hists.append((h, wb))
         nid = h.n
         impl_lines += h.impl
